@@ -236,4 +236,12 @@ def rule_order(ctx):
     c05f_(ctx)
 
 
-RULES = [('C10.a', rule_a), ('C10.b', rule_b), ('C10.c', rule_c), ('C05.a', rule_order), ('C03.c', rule_d)]
+def rule_e(ctx):
+    """Stream table, reassembly cache, queues and handlers are per connection / per stream objects."""
+    from . import plumbing
+    plumbing.rule_shared_defaults(ctx, 'C10.d', ['rsocket.rsocket_', 'rsocket.stream_control', 'rsocket.frame_fragment',
+                                                 'rsocket.handlers', 'rsocket.streams', 'rsocket.lease',
+                                                 'rsocket.queue_peekable'], 'connection and stream state')
+
+
+RULES = [('C10.a', rule_a), ('C10.b', rule_b), ('C10.c', rule_c), ('C05.a', rule_order), ('C03.c', rule_d), ('C10.d', rule_e)]
